@@ -109,6 +109,14 @@ func Invoke(ctx context.Context, cc grpc.ClientConnInterface, name string, req [
 	return out.GetValue(), nil
 }
 
+// InvokeInto is Invoke with a reply object supplied by the caller (an application may reuse one across calls).
+func InvokeInto(ctx context.Context, cc grpc.ClientConnInterface, name string, req []byte, out *wrapperspb.BytesValue) ([]byte, error) {
+	if err := cc.Invoke(ctx, FullMethod(name), &wrapperspb.BytesValue{Value: req}, out); err != nil {
+		return nil, err
+	}
+	return out.GetValue(), nil
+}
+
 // StreamKind enumerates the three streaming shapes.
 const (
 	KindUnary  = 0
